@@ -1,5 +1,6 @@
 import CoapVerif.Lemmas.TlsGate
 import CoapVerif.Lemmas.TlsLedger
+import CoapVerif.Lemmas.TlsOrder
 import CoapVerif.Lemmas.PskSelect
 import CoapVerif.Spec.TlsCreds
 /-
@@ -111,7 +112,7 @@ theorem no_handler_before_hsOk {s : Sess} (h : Unauth s) (evs : List (Ev × List
 PDU written in any history of an unauthenticated session is preceded by the oracle's success … -/
 theorem nothing_queued_written_before_established {s : Sess} (h : Unauth s) (evs : List (Ev × List Orc))
     (pre post : List Out) (tls : Bool) (v : View) (sn : Option Nat)
-    (htr : (s.run evs).2 = pre ++ Out.tx tls v sn :: post) : Out.hsOkMark ∈ pre := by
+    (htr : (s.run evs).2 = pre ++ Out.tx tls v sn cnt :: post) : Out.hsOkMark ∈ pre := by
   have hk := (run_sessOk evs (unauth_sessOk h)).ok
   rw [htr] at hk
   rcases mon_split _ pre post _ hk rfl with h1 | ⟨x, hx, hm⟩
@@ -121,8 +122,8 @@ theorem nothing_queued_written_before_established {s : Sess} (h : Unauth s) (evs
 /-- … and every PDU of a DTLS session is written through the TLS layer (coap_dtls_send), never by the plain datagram
 write: nothing goes out in clear, in any history. -/
 theorem no_cleartext_on_dtls_session {s : Sess} (h : Unauth s) (evs : List (Ev × List Orc)) :
-    ∀ o ∈ (s.run evs).2, ∀ v sn, o ≠ Out.tx false v sn := by
-  intro o ho v sn heq
+    ∀ o ∈ (s.run evs).2, ∀ v sn cnt, o ≠ Out.tx false v sn cnt := by
+  intro o ho v sn cnt heq
   have := mon_noclear _ _ (run_sessOk evs (unauth_sessOk h)).ok o ho
   subst heq
   simp [Out.isClear] at this
@@ -502,7 +503,7 @@ theorem queued_delivered_in_order_once_on_success_partial (fuel : Nat) (c : Ctx)
     (he : c.s.est = true) (hs : c.s.state = .established) (hd : c.s.dtlsEvent = none)
     (ho : ∀ n, c.orc.drop n = [] ∨ ∃ t, c.orc.drop n = Orc.snd .ok :: t) (hlen : c.s.delayq.length ≤ c.orc.length)
     (hf : c.s.delayq.length < fuel) :
-    (Ctx.flushLoop fuel c).out = c.out ++ (sentPrefix c.s.conActive c.s.delayq).map (fun m => Out.tx true (m.view false) (some m.sn)) ∧
+    (Ctx.flushLoop fuel c).out = c.out ++ (sentPrefix c.s.conActive c.s.delayq).map (fun m => Out.tx true (m.view false) (some m.sn) m.cnt) ∧
       (Ctx.flushLoop fuel c).s.delayq = c.s.delayq.drop (sentPrefix c.s.conActive c.s.delayq).length := by
   induction fuel generalizing c with
   | zero => omega
@@ -524,7 +525,7 @@ theorem queued_delivered_in_order_once_on_success_partial (fuel : Nat) (c : Ctx)
         simp [sentPrefix, hc, hca, hq]
       · simp only [hblock, if_false]
         -- one round
-        have hone : (c.flushOne q rest).out = c.out ++ [Out.tx true (q.view false) (some q.sn)] ∧
+        have hone : (c.flushOne q rest).out = c.out ++ [Out.tx true (q.view false) (some q.sn) q.cnt] ∧
             (c.flushOne q rest).s.delayq = rest ∧ (c.flushOne q rest).ret = 1 ∧ (c.flushOne q rest).orc = t ∧
             (c.flushOne q rest).s.proto = .dtls ∧ (c.flushOne q rest).s.est = true ∧
             (c.flushOne q rest).s.state = .established ∧ (c.flushOne q rest).s.dtlsEvent = none ∧
@@ -576,12 +577,12 @@ theorem tls_no_handler_before_hsOk {s : Sess} (hp : s.proto = .tls) (he : s.est 
 /-- … and every PDU written (the CSM included) is preceded by it and goes through coap_tls_write -/
 theorem tls_nothing_written_before_hsOk {s : Sess} (hp : s.proto = .tls) (he : s.est = false) (hst : s.state ≠ .established)
     (evs : List (Ev × List Orc)) (pre post : List Out) (tls : Bool) (v : View) (sn : Option Nat)
-    (htr : (s.run evs).2 = pre ++ Out.tx tls v sn :: post) : Out.hsOkMark ∈ pre ∧ tls = true := by
+    (htr : (s.run evs).2 = pre ++ Out.tx tls v sn cnt :: post) : Out.hsOkMark ∈ pre ∧ tls = true := by
   have hu : Unauth s := ⟨he, hst, by simp [hp]⟩
   refine ⟨nothing_queued_written_before_established hu evs pre post tls v sn htr, ?_⟩
   cases tls with
   | true => rfl
-  | false => exact absurd rfl (no_cleartext_on_dtls_session hu evs _ (by rw [htr]; simp) v sn)
+  | false => exact absurd rfl (no_cleartext_on_dtls_session hu evs _ (by rw [htr]; simp) v sn cnt)
 
 /-- whole life of a TLS client session, from coap_new_client_session_psk2 on -/
 theorem tls_client_life_gated (now : Bool) (orc0 : List Orc) (evs : List (Ev × List Orc)) (pre post : List Out) (o : Out)
@@ -635,7 +636,7 @@ theorem tls_queued_delivered_in_order_once_on_success (fuel : Nat) (c : Ctx) (hp
     (he : c.s.est = true) (hs : c.s.state = .established)
     (ho : ∀ n, c.orc.drop n = [] ∨ ∃ t, c.orc.drop n = Orc.snd .ok :: t) (hlen : c.s.delayq.length ≤ c.orc.length)
     (hf : c.s.delayq.length < fuel) :
-    (Ctx.flushLoop fuel c).out = c.out ++ c.s.delayq.map (fun m => Out.tx true m.strmView (some m.sn)) ∧
+    (Ctx.flushLoop fuel c).out = c.out ++ c.s.delayq.map (fun m => Out.tx true m.strmView (some m.sn) m.cnt) ∧
       (Ctx.flushLoop fuel c).s.delayq = [] := by
   induction fuel generalizing c with
   | zero => omega
@@ -653,7 +654,7 @@ theorem tls_queued_delivered_in_order_once_on_success (fuel : Nat) (c : Ctx) (hp
       have hblock : ¬ ((q.con && decide (c.s.proto ≠ Proto.tls) && decide (c.s.conActive ≥ NSTART)) = true) := by
         simp [hp]
       simp only [hblock, if_false, Bool.false_eq_true]
-      have hone : (c.flushOne q rest).out = c.out ++ [Out.tx true q.strmView (some q.sn)] ∧
+      have hone : (c.flushOne q rest).out = c.out ++ [Out.tx true q.strmView (some q.sn) q.cnt] ∧
           (c.flushOne q rest).s.delayq = rest ∧ (c.flushOne q rest).ret = 1 ∧ (c.flushOne q rest).orc = t ∧
           (c.flushOne q rest).s.proto = .tls ∧ (c.flushOne q rest).s.est = true ∧
           (c.flushOne q rest).s.state = .established := by
@@ -810,14 +811,14 @@ the first lg_crcv entry's request and returns, the request stays queued and is r
 theorem queued_con_one_nack_on_failure {s : Sess} (h : Unauth s) (hl : Ledger0 s) (pre rest : List (Ev × List Orc)) (q : QMsg)
     (hq : q ∈ (s.run pre).1.delayq) (hc : q.con = true) (hal : (s.run pre).1.state ≠ .none)
     (hfr : (s.run pre).1.freed = false) (hnm : Out.hsOkMark ∉ (s.run (pre ++ rest)).2) :
-    (∀ o ∈ (s.run (pre ++ rest)).2, ∀ tls v sn, o ≠ Out.tx tls v sn) ∧
+    (∀ o ∈ (s.run (pre ++ rest)).2, ∀ tls v sn cnt, o ≠ Out.tx tls v sn cnt) ∧
     ((∃ x ∈ (s.run (pre ++ rest)).1.delayq, x.sn = q.sn ∧ x.con = true ∧ (s.run (pre ++ rest)).1.state ≠ .none ∧
         (s.run (pre ++ rest)).1.freed = false ∧ nk q.sn (s.run (pre ++ rest)).2 = 0) ∨
      ((∀ x ∈ (s.run (pre ++ rest)).1.delayq, x.sn ≠ q.sn) ∧ nk q.sn (s.run (pre ++ rest)).2 = 1)) ∧
     ((s.run (pre ++ rest)).1.state = .none ∨ (s.run (pre ++ rest)).1.freed = true →
       nk q.sn (s.run (pre ++ rest)).2 = 1) := by
-  have hnotx : ∀ o ∈ (s.run (pre ++ rest)).2, ∀ tls v sn, o ≠ Out.tx tls v sn := by
-    intro o ho tls v sn heq
+  have hnotx : ∀ o ∈ (s.run (pre ++ rest)).2, ∀ tls v sn cnt, o ≠ Out.tx tls v sn cnt := by
+    intro o ho tls v sn cnt heq
     subst heq
     obtain ⟨a, b, hab⟩ := List.append_of_mem ho
     have := nothing_queued_written_before_established h (pre ++ rest) a b tls v sn hab
@@ -950,7 +951,7 @@ theorem flush_accepting_frame (fuel : Nat) (c : Ctx) (hp : c.s.proto = .dtls)
 theorem recvHs_ok (c : Ctx) (snds : List Orc) (horc : c.orc = .hs .ok :: snds) (hp : c.s.proto = .dtls)
     (hst : c.s.state = .handshake) (hd : c.s.dtlsEvent = none)
     (ho : ∀ n, snds.drop n = [] ∨ ∃ t, snds.drop n = Orc.snd .ok :: t) (hlen : c.s.delayq.length ≤ snds.length) :
-    c.recvHs.out = c.out ++ Out.hsOkMark :: (sentPrefix c.s.conActive c.s.delayq).map (fun m => Out.tx true (m.view false) (some m.sn)) ∧
+    c.recvHs.out = c.out ++ Out.hsOkMark :: (sentPrefix c.s.conActive c.s.delayq).map (fun m => Out.tx true (m.view false) (some m.sn) m.cnt) ∧
     c.recvHs.s.delayq = c.s.delayq.drop (sentPrefix c.s.conActive c.s.delayq).length ∧
     c.recvHs.s.state = .established ∧ c.recvHs.s.appRef = c.s.appRef ∧ c.recvHs.s.typ = c.s.typ ∧
     c.recvHs.s.freed = c.s.freed := by
@@ -996,7 +997,7 @@ theorem establishing_dgram (s : Sess) (snds : List Orc) (hp : s.proto = .dtls) (
     (hest : s.est = false) (hst : s.state = .handshake) (hfr : s.freed = false) (hap : s.appRef = true)
     (ho : ∀ n, snds.drop n = [] ∨ ∃ t, snds.drop n = Orc.snd .ok :: t) (hlen : s.delayq.length ≤ snds.length) :
     (s.step .dgram (.hs .ok :: snds)).2 =
-      Out.hsOkMark :: (sentPrefix s.conActive s.delayq).map (fun m => Out.tx true (m.view false) (some m.sn)) ∧
+      Out.hsOkMark :: (sentPrefix s.conActive s.delayq).map (fun m => Out.tx true (m.view false) (some m.sn) m.cnt) ∧
     (s.step .dgram (.hs .ok :: snds)).1.delayq = s.delayq.drop (sentPrefix s.conActive s.delayq).length ∧
     (s.step .dgram (.hs .ok :: snds)).1.state = .established := by
   have hr := recvHs_ok (({ s := s, orc := .hs .ok :: snds } : Ctx).upd fun s => { s with dtlsEvent := none }) snds rfl hp hst rfl
@@ -1035,10 +1036,10 @@ theorem queued_first_flush_in_order_once_on_success {s : Sess} (h : Unauth s) (h
     (hp : (s.run pre).1.proto = .dtls) (hty : (s.run pre).1.typ ≠ .hello) (htls : (s.run pre).1.tls = true)
     (hst : (s.run pre).1.state = .handshake) (hfr : (s.run pre).1.freed = false) (hap : (s.run pre).1.appRef = true)
     (ho : ∀ n, snds.drop n = [] ∨ ∃ t, snds.drop n = Orc.snd .ok :: t) (hlen : (s.run pre).1.delayq.length ≤ snds.length) :
-    (∀ o ∈ (s.run pre).2, ∀ tls v sn, o ≠ Out.tx tls v sn) ∧
+    (∀ o ∈ (s.run pre).2, ∀ tls v sn cnt, o ≠ Out.tx tls v sn cnt) ∧
     ((s.run pre).1.delayq.map (·.sn)).Pairwise (· < ·) ∧
     (s.run (pre ++ [(.dgram, .hs .ok :: snds)])).2 = (s.run pre).2 ++ Out.hsOkMark ::
-      (sentPrefix (s.run pre).1.conActive (s.run pre).1.delayq).map (fun m => Out.tx true (m.view false) (some m.sn)) ∧
+      (sentPrefix (s.run pre).1.conActive (s.run pre).1.delayq).map (fun m => Out.tx true (m.view false) (some m.sn) m.cnt) ∧
     (s.run (pre ++ [(.dgram, .hs .ok :: snds)])).1.delayq =
       (s.run pre).1.delayq.drop (sentPrefix (s.run pre).1.conActive (s.run pre).1.delayq).length ∧
     (s.run (pre ++ [(.dgram, .hs .ok :: snds)])).1.state = .established ∧
@@ -1046,8 +1047,8 @@ theorem queued_first_flush_in_order_once_on_success {s : Sess} (h : Unauth s) (h
     (∀ x ∈ sentPrefix (s.run pre).1.conActive (s.run pre).1.delayq, wr x.sn (s.run (pre ++ [(.dgram, .hs .ok :: snds)])).2 = 1) ∧
     (∀ j, nk j (s.run (pre ++ [(.dgram, .hs .ok :: snds)])).2 ≤ 1) ∧
     (∀ x ∈ (s.run pre).1.delayq, nk x.sn (s.run (pre ++ [(.dgram, .hs .ok :: snds)])).2 = 0) := by
-  have hnotx : ∀ o ∈ (s.run pre).2, ∀ tls v sn, o ≠ Out.tx tls v sn := by
-    intro o ho' tls v sn heq
+  have hnotx : ∀ o ∈ (s.run pre).2, ∀ tls v sn cnt, o ≠ Out.tx tls v sn cnt := by
+    intro o ho' tls v sn cnt heq
     subst heq
     obtain ⟨a, b, hab⟩ := List.append_of_mem ho'
     have := nothing_queued_written_before_established h pre a b tls v sn hab
@@ -1069,10 +1070,10 @@ theorem queued_first_flush_in_order_once_on_success {s : Sess} (h : Unauth s) (h
     rw [List.countP_eq_zero]
     intro o ho' hwr
     cases o with
-    | tx a v sn => exact hnotx _ ho' a v sn rfl
+    | tx a v sn cnt => exact hnotx _ ho' a v sn cnt rfl
     | _ => simp [Out.writes] at hwr
   have hwf : ∀ j, wr j ((s.run pre).2 ++ Out.hsOkMark ::
-      (sentPrefix (s.run pre).1.conActive (s.run pre).1.delayq).map (fun m => Out.tx true (m.view false) (some m.sn))) =
+      (sentPrefix (s.run pre).1.conActive (s.run pre).1.delayq).map (fun m => Out.tx true (m.view false) (some m.sn) m.cnt)) =
       (sentPrefix (s.run pre).1.conActive (s.run pre).1.delayq).countP (fun m => m.sn == j) := by
     intro j
     have := hw0 j
@@ -1083,7 +1084,7 @@ theorem queued_first_flush_in_order_once_on_success {s : Sess} (h : Unauth s) (h
   have hsp : ((sentPrefix (s.run pre).1.conActive (s.run pre).1.delayq).map (·.sn)).Pairwise (· < ·) :=
     List.Pairwise.sublist (List.Sublist.map _ (sentPrefix_isPrefix _ _).sublist) l2
   have hnf : ∀ j, nk j ((s.run pre).2 ++ Out.hsOkMark ::
-      (sentPrefix (s.run pre).1.conActive (s.run pre).1.delayq).map (fun m => Out.tx true (m.view false) (some m.sn))) =
+      (sentPrefix (s.run pre).1.conActive (s.run pre).1.delayq).map (fun m => Out.tx true (m.view false) (some m.sn) m.cnt)) =
       nk j (s.run pre).2 := by
     intro j
     rw [nk_append, nk_quiet j (Out.hsOkMark :: _)]
@@ -1148,8 +1149,8 @@ example :
                       (.strmRead, [.hs .ok, .snd .ok, .recv .again]),
                       (.strmRead, [.recv (.data ⟨0, 225, 0, "-", ""⟩), .snd .ok, .snd .ok]),
                       (.strmRead, [.recv (.data ⟨0, 69, 0, "01", "6869"⟩)])]).2 =
-      [.hsOkMark, .ev .connected, .tx true ⟨0, 225, 0, "-", ""⟩ (some 2),
-       .evTcp .sessConnected, .tx true ⟨0, 1, 0, "01", ""⟩ (some 0), .tx true ⟨0, 1, 0, "02", ""⟩ (some 1),
+      [.hsOkMark, .ev .connected, .tx true ⟨0, 225, 0, "-", ""⟩ (some 2) 0,
+       .evTcp .sessConnected, .tx true ⟨0, 1, 0, "01", ""⟩ (some 0) 0, .tx true ⟨0, 1, 0, "02", ""⟩ (some 1) 0,
        .rsp "01" 69] := by
   decide
 
@@ -1176,7 +1177,7 @@ example :
     (hsClient.run [(.appSend true 1 7 "01", []), (.appSend false 1 8 "02", []),
                    (.dgram, [.hs .ok, .snd .ok, .snd .ok]),
                    (.dgram, [.recv (.data ⟨2, 69, 7, "01", "6869"⟩)])]).2 =
-      [.hsOkMark, .tx true ⟨0, 1, 7, "01", ""⟩ (some 0), .tx true ⟨1, 1, 8, "02", ""⟩ (some 1), .rsp "01" 69] := by
+      [.hsOkMark, .tx true ⟨0, 1, 7, "01", ""⟩ (some 0) 0, .tx true ⟨1, 1, 8, "02", ""⟩ (some 1) 0, .rsp "01" 69] := by
   decide
 
 /-- the handshake fails with an alert: the CON is NACKed once, the NON dropped, nothing written, session NONE -/
@@ -1294,7 +1295,7 @@ example : Out.hsOkMark ∉ (hsClient.run okPre).2 ∧ (hsClient.run okPre).1.pro
 /-- … and the whole trace: the mark, the NON and the first CON through the TLS layer, in submission order; the second CON
 waits for the ACK (NSTART) -/
 example : (hsClient.run (okPre ++ [(.dgram, .hs .ok :: List.replicate 3 (Orc.snd .ok))])).2 =
-    [.hsOkMark, .tx true ⟨1, 1, 7, "01", ""⟩ (some 0), .tx true ⟨0, 1, 8, "02", ""⟩ (some 1)] ∧
+    [.hsOkMark, .tx true ⟨1, 1, 7, "01", ""⟩ (some 0) 0, .tx true ⟨0, 1, 8, "02", ""⟩ (some 1) 0] ∧
     ((hsClient.run (okPre ++ [(.dgram, .hs .ok :: List.replicate 3 (Orc.snd .ok))])).1.delayq.map (·.sn)) = [2] := by
   decide
 
@@ -1318,5 +1319,179 @@ example : Coap.TlsCreds.accepts { ck := "" } = .nosession := by decide
 example : Coap.TlsCreds.accepts { st := some [("6162", "6b6579")] } = .fail := by decide
 example : Coap.TlsCreds.accepts { sh := some "68696e74", ih := .list ["6162"] } = .fail := by decide
 example : Coap.TlsCreds.accepts { sni := some "686f7374", ss := some [("686f7375", "68", "6b6579")] } = .fail := by decide
+
+/-! ### the first-transmission ledger: beyond the establishment (round R19b, Lemmas/TlsOrder.lean)
+
+`Out.tx` carries the node's retransmit_cnt, so a FIRST transmission (count 0, a message serial) can be told from a
+retransmission and from an acknowledgement.  `firsts N tr` = the serials below `N` of the first transmissions in `tr`, in trace
+order; `fresh0 dq` = the serials of the never-transmitted messages of a delay queue, in queue order.  `Coap.TlsGate.Ord` is
+preserved by every function of M on a DTLS session — before, at and after the establishment: the later ACK-driven passes of
+coap_session_connected, coap_retransmit (count ≥ 1: never a first transmission, also when the retransmission is parked in the
+delay queue and flushed from there), give-ups, RST, teardown with messages in flight, release. -/
+
+theorem count_le_one_of_sorted (l : List Nat) (h : l.Pairwise (· < ·)) (a : Nat) : l.count a ≤ 1 := by
+  induction l with
+  | nil => simp
+  | cons x t ih =>
+    rw [List.pairwise_cons] at h
+    rw [List.count_cons]
+    by_cases hx : x = a
+    · subst hx
+      have : t.count x = 0 := List.count_eq_zero.mpr fun hm => Nat.lt_irrefl _ (h.1 x hm)
+      simp [this]
+    · have := ih h.2
+      simp [hx]; exact this
+
+theorem sorted_append_disjoint (a b : List Nat) (h : (a ++ b).Pairwise (· < ·)) (x : Nat) (ha : x ∈ a) (hb : x ∈ b) : False :=
+  Nat.lt_irrefl _ ((List.pairwise_append.mp h).2.2 x ha x hb)
+
+/-- DELIVERED IN ORDER, EACH ONCE — trace level, through and BEYOND the establishment.  Take any history `pre` of a DTLS session
+that starts unauthenticated in which the TLS library has not reported success, and let `N` be the next serial at its end: the
+serials below `N` are exactly the messages submitted during the handshake.  Let `rest` be ANY continuation: the datagram that
+completes the handshake, ACKs, responses, RSTs, CoAP retransmission timers, further coap_send calls, disconnects, release — with
+ANY answers of the TLS library (in particular: every write accepted; a refused write is covered too, `tx` = the PDU was
+handed to coap_dtls_send).  Then over the WHOLE trace:
+  * the serials of the FIRST transmissions of the messages queued during the handshake, in the order they happen, followed by
+    the serials of the never-transmitted messages still in the delay queue, are STRICTLY INCREASING: every queued message is
+    transmitted for the first time AT MOST ONCE, and first transmissions happen in SUBMISSION ORDER — nothing overtakes, whichever
+    pass of coap_session_connected (handshake completion or a later ACK / give-up) takes it off the queue;
+  * every message `q` that was in the delay queue at the end of `pre` is, at the end, EITHER still queued and has never been
+    transmitted, OR no longer waiting for its first transmission and then transmitted for the first time EXACTLY ONCE — unless
+    the queue was given up: a NACK other than the ICMP notification was raised (coap_session_disconnected_lkd always raises one)
+    or the session was freed (coap_session_mfree).
+Hypothesis `q.cnt = 0`: what coap_send submits (retransmit_cnt 0).
+Not claimed (and false, C06/C08's open finding drain_break_strands_delayed / the NON-response path that lowers con_active
+without a flush): that a message still queued on an established session will eventually be taken off the queue. -/
+theorem queued_delivered_in_order_once_on_success {s : Sess} (h : Unauth s) (hl : Ledger0 s) (hp : s.proto = .dtls)
+    (pre rest : List (Ev × List Orc)) (hnm : Out.hsOkMark ∉ (s.run pre).2) :
+    (firsts (s.run pre).1.next (s.run (pre ++ rest)).2 ++ fresh0 (s.run (pre ++ rest)).1.delayq).Pairwise (· < ·) ∧
+    (∀ q ∈ (s.run pre).1.delayq, q.cnt = 0 →
+      (q.sn ∈ fresh0 (s.run (pre ++ rest)).1.delayq ∧ (firsts (s.run pre).1.next (s.run (pre ++ rest)).2).count q.sn = 0) ∨
+      (q.sn ∉ fresh0 (s.run (pre ++ rest)).1.delayq ∧
+        ((firsts (s.run pre).1.next (s.run (pre ++ rest)).2).count q.sn = 1 ∨
+          (s.run (pre ++ rest)).2.any Out.isFail = true ∨ (s.run (pre ++ rest)).1.freed = true))) := by
+  -- nothing was written during `pre`
+  have hnotx : ∀ o ∈ (s.run pre).2, ∀ j, o.firstSn = some j → (s.run pre).1.next ≤ j := by
+    intro o ho j hj
+    cases o with
+    | tx a v sn cnt =>
+      obtain ⟨x, y, hab⟩ := List.append_of_mem ho
+      have := nothing_queued_written_before_established h pre x y a v sn hab
+      exact absurd (by rw [hab]; simp [this]) hnm
+    | _ => simp [Out.firstSn] at hj
+  have hf0 : ∀ l, firsts (s.run pre).1.next ((s.run pre).2 ++ l) = firsts (s.run pre).1.next l := by
+    intro l; rw [firsts_append, firsts_quiet _ _ hnotx]; rfl
+  -- the ledger of the handshake phase at the end of `pre`
+  have h1 := run_ledOk pre (ledOk_start h hl)
+  have hc : Core (fun j => 0 + nk j (s.run pre).2) false 0 { s := (s.run pre).1, orc := [] } := by
+    rcases h1.led with hs | hc
+    · exact absurd hs (not_seen_of_no_mark _ hnm)
+    · exact hc []
+  -- the protocol never changes
+  have hp1 : (s.run pre).1.proto = .dtls := by
+    have h0 : Ord 0 [] false false 0 { s := s } :=
+      ⟨by
+        simp only [firsts_nil, List.append_nil, List.nil_append]
+        exact List.Pairwise.sublist (List.Sublist.map _ List.filter_sublist) hl.srt,
+       by
+        intro j hj
+        simp only [fresh0, List.mem_map, List.mem_filter] at hj
+        obtain ⟨q, ⟨hq, _⟩, rfl⟩ := hj
+        exact hl.lt q hq,
+       Nat.zero_le _, by simp, hp, by simp⟩
+    exact (run_ord s pre h0).proto
+  have hmem : ∀ q ∈ (s.run pre).1.delayq, q.cnt = 0 → q.sn ∈ fresh0 (s.run pre).1.delayq := by
+    intro q hq hc0
+    simp only [fresh0, List.mem_map, List.mem_filter]
+    exact ⟨q, ⟨hq, by simp [hc0]⟩, rfl⟩
+  have key : ∀ (t : Bool) (k : Nat), (t = true → k < (s.run pre).1.next ∧ k ∈ fresh0 (s.run pre).1.delayq) →
+      Ord (s.run pre).1.next ([] ++ firsts (s.run pre).1.next ((s.run pre).1.run rest).2)
+        (false || ((s.run pre).1.run rest).2.any Out.isFail) t k { s := ((s.run pre).1.run rest).1 } := by
+    intro t k hk
+    refine run_ord (s.run pre).1 rest ⟨?_, ?_, Nat.le_refl _, by simp, hp1, ?_⟩
+    · simp only [firsts_nil, List.append_nil, List.nil_append]
+      exact List.Pairwise.sublist (List.Sublist.map _ List.filter_sublist) hc.srt
+    · intro j hj
+      simp only [fresh0, List.mem_map, List.mem_filter] at hj
+      obtain ⟨q, ⟨hq, _⟩, rfl⟩ := hj
+      exact hc.lt q hq
+    · intro ht
+      exact ⟨(hk ht).1, Or.inl (hk ht).2⟩
+  rw [run_append]
+  simp only [hf0]
+  have hsrt := (key false 0 (by simp)).srt
+  simp only [firsts_nil, List.append_nil, List.nil_append] at hsrt
+  refine ⟨hsrt, ?_⟩
+  intro q hq hc0
+  have hk := (key true q.sn fun _ => ⟨hc.lt q hq, hmem q hq hc0⟩).trk rfl
+  simp only [firsts_nil, List.append_nil, List.nil_append, Bool.false_or] at hk
+  have hcnt := count_le_one_of_sorted _ (List.pairwise_append.mp hsrt).1 q.sn
+  by_cases hin : q.sn ∈ fresh0 ((s.run pre).1.run rest).1.delayq
+  · left
+    refine ⟨hin, List.count_eq_zero.mpr fun hm => sorted_append_disjoint _ _ hsrt q.sn hm hin⟩
+  · right
+    refine ⟨hin, ?_⟩
+    rcases hk.2 with b | b | b | b | b
+    · exact absurd b hin
+    · left
+      have := List.count_pos_iff.mpr b
+      omega
+    · right; left
+      simp only [List.any_append, b, Bool.or_true]
+    · simp at b
+    · right; right; exact b
+
+/-- the first-transmission ledger of ANY history of a DTLS session whose delay queue starts in submission order (no gate needed):
+first transmissions of serials below the starting `next`, then the never-transmitted rest of the queue: strictly increasing.
+This is the form that also covers a session that is already established. -/
+theorem first_transmissions_in_order (s : Sess) (hp : s.proto = .dtls)
+    (hs : (fresh0 s.delayq).Pairwise (· < ·)) (hlt : ∀ j ∈ fresh0 s.delayq, j < s.next) (evs : List (Ev × List Orc)) :
+    (firsts s.next (s.run evs).2 ++ fresh0 (s.run evs).1.delayq).Pairwise (· < ·) := by
+  have h0 : Ord s.next [] false false 0 { s := s } :=
+    ⟨by simpa using hs, hlt, Nat.le_refl _, by simp, hp, by simp⟩
+  simpa using (run_ord s evs h0).srt
+
+/-- an instance of every hypothesis of `queued_delivered_in_order_once_on_success`, and a continuation that goes well beyond
+the establishing datagram: NON 0, CON 1, CON 2 queued (`okPre`); the handshake completes (0 and 1 go out, 2 waits: NSTART); the
+CoAP timer of 1 fires (retransmission, count 1); a fourth message is submitted (serial 3, waits behind 2); the ACK of 1 arrives:
+the later pass of coap_session_connected transmits 2; the peer resets 2: pass three transmits 3 -/
+def okRest : List (Ev × List Orc) :=
+  [(.dgram, .hs .ok :: List.replicate 3 (Orc.snd .ok)), (.retransmit 8, [.snd .ok]), (.appSend true 1 10 "04", []),
+   (.dgram, [.recv (.data ⟨2, 69, 8, "02", ""⟩), .snd .ok]), (.dgram, [.recv (.data ⟨3, 0, 9, "", ""⟩), .snd .ok])]
+
+example : Unauth hsClient ∧ Ledger0 hsClient ∧ hsClient.proto = .dtls ∧ Out.hsOkMark ∉ (hsClient.run okPre).2 ∧
+    (hsClient.run okPre).1.delayq.map (fun q => (q.sn, q.cnt)) = [(0, 0), (1, 0), (2, 0)] ∧ (hsClient.run okPre).1.next = 3 :=
+  ⟨⟨rfl, by decide, by decide⟩, ⟨rfl, by decide, by decide, by decide, by decide⟩, rfl, by decide, by decide, by decide⟩
+
+/-- … the trace: first transmissions 0, 1, 2 in submission order, the retransmission of 1 (count 1) in between is not one; serial
+3 (submitted after the establishment) is outside `firsts 3` -/
+example : (hsClient.run (okPre ++ okRest)).2.filterMap (fun o => match o with | .tx _ _ (some j) cnt => some (j, cnt) | _ => none) =
+      [(0, 0), (1, 0), (1, 1), (2, 0), (3, 0)] ∧
+    firsts 3 (hsClient.run (okPre ++ okRest)).2 = [0, 1, 2] ∧ fresh0 (hsClient.run (okPre ++ okRest)).1.delayq = [] := by
+  decide
+
+/-- a refused write during the first flush (the TLS library answers an error for the NON): the CON behind it is still
+transmitted once, in order; the third stays queued, never transmitted — the two cases of the theorem side by side -/
+example : firsts 3 (hsClient.run (okPre ++ [(.dgram, [.hs .ok, .snd .err, .snd .ok])])).2 = [0] ∧
+    fresh0 (hsClient.run (okPre ++ [(.dgram, [.hs .ok, .snd .err, .snd .ok])])).1.delayq = [1, 2] := by
+  decide
+
+/-- teardown after the establishment with a message still queued: it is never transmitted, the trace has the NACKs -/
+example : firsts 3 (hsClient.run (okPre ++ [(.dgram, .hs .ok :: List.replicate 3 (Orc.snd .ok)), (.appDisconnect .tls, [])])).2 = [0, 1] ∧
+    fresh0 (hsClient.run (okPre ++ [(.dgram, .hs .ok :: List.replicate 3 (Orc.snd .ok)), (.appDisconnect .tls, [])])).1.delayq = [] ∧
+    (hsClient.run (okPre ++ [(.dgram, .hs .ok :: List.replicate 3 (Orc.snd .ok)), (.appDisconnect .tls, [])])).2.any Out.isFail = true := by
+  decide
+
+/-- An ICMP error reported to a session with nothing in flight and no lg_crcv entry (coap_session_disconnected_lkd with
+COAP_NACK_ICMP_ISSUE while requests wait behind the handshake, no block mode): exactly ONE notification that names NO message;
+the delay queue, the state and everything else are untouched — a queued Confirmable is not reported by it, however often it
+happens (the lg_crcv case is `icmp_notification_is_extra`).  Tied by the harness' `icmp` segments (round R19b). -/
+theorem icmp_report_names_nothing_queued (c : Ctx) (hi : c.s.inflight = []) (hl : c.s.lgCrcv = []) :
+    (c.disconnected .icmp).out = c.out ++ [.nack .icmp none none] ∧ (c.disconnected .icmp).s = c.s := by
+  simp [Ctx.disconnected, Ctx.discOuts, Ctx.discFirst, Ctx.discDq, Ctx.discLg, hi, hl]
+
+/-- … on `okPre`'s session (NON, CON, CON queued, handshake pending), twice: two anonymous notifications, queue unchanged -/
+example : ((hsClient.run okPre).1.run [(.appDisconnect .icmp, []), (.appDisconnect .icmp, [])]) =
+    ((hsClient.run okPre).1, [.nack .icmp none none, .nack .icmp none none]) := by decide
 
 end Coap.C19
